@@ -11,55 +11,55 @@ CHECKS = {
    "Trusts the model (30 lines) and net.IPNet construction; sequences beyond the enumerated length are only sampled.", "§3 C11"),
  "C04": ("route", "exploration",
    "reference-model monitor (router written from the statement) + invocation counter + recover(), exhaustive small-scope tables x paths, seeded random large tables",
-   "Registers every table of up to 3 routes over 58 patterns x {GET,*} (POST for pairs), thorough also all 4-route tables over 10 shapes x 3 methods, on a real Mux and on a flat-list reference router; sends 151 paths (doubled/trailing slashes, look-alike segments, '', '*', slash-less) x 4 methods through ServeHTTP and compares the single invoked handler, its RouteInfo and every parameter lookup. Plus random tables of 5..40 routes with arbitrary-byte segments. About 10^8 dispatches per run.",
+   "Registers every table of up to 3 routes over 58 patterns x {GET,*} (POST for pairs), thorough also all 4-route tables over 10 shapes x 3 methods, on a real Mux and on a flat-list reference router; sends 151 paths (doubled/trailing slashes, look-alike segments, '', '*', slash-less) x 4 methods through ServeHTTP and compares the single invoked handler, its RouteInfo and every parameter lookup. Plus random tables of 5..40 routes with arbitrary-byte segments; in part of the cases handlers panic after observing, the request list is served after every single registration, or 4..64 goroutines serve at once under GC pressure. About 10^8 dispatches per run.",
    "Trusts the 150-line reference router; requests are delivered by calling ServeHTTP directly with a hand-built http.Request (no network parsing in between).", "§3 C04"),
  "C05": ("reqiso", "exploration",
    "differential monitor: every request of a history on a long-lived Mux vs the same request on a fresh Mux; ID uniqueness set; Go race detector on concurrent runs",
-   "All histories of up to 4 (quick) / 6 (thorough) ops over a 9-op alphabet (matched with 0/1/2 params or *, unmatched, partial match failing at the method node, panicking handler, registering a route with more parameters than any before, serving it) on one goroutine so that the pooled Store is reused maximally; relay, route and no-route handlers look up every parameter name of the table, RouteParamAny, W.Status and GetID. Random histories up to 200 ops; concurrent runs of 4-16 goroutines x 10^4 requests plain and under -race at GOMAXPROCS 2/4/16.",
+   "All histories of up to 4 (quick) / 6 (thorough) ops over a 10-op alphabet (the root route, matched with 0/1/2 params or *, unmatched, partial match failing at the method node, panicking handler, registering a route with more parameters than any before, serving it) on one goroutine so that the pooled Store is reused maximally; relay, route and no-route handlers look up every parameter name of the table, RouteParamAny, W.Status and GetID. Random histories up to 200 ops; concurrent runs of 4-16 goroutines x 10^4 requests plain and under -race at GOMAXPROCS 2/4/16.",
    "Trusts that a fresh Mux is residue-free (it is the reference); registration concurrent with serving is outside the statement and not driven.", "§3 C05"),
  "C01": ("logjson", "exploration",
    "reference-model monitor: strict framing + UTF-8 + order-preserving JSON decode of every written line vs an independently computed expected tree; string- and shape-exhaustive sub-spaces, seeded random deep records",
-   "Every line the JSON handler writes (through the public Logger API and through Handler.Handle with a chosen time) is checked for framing, UTF-8, single-object syntax and ordered equality with the expected tree. The string space ('', all 1-/2-byte strings, every Unicode scalar alone and embedded; quick rotates through 1/16 of the scalars) is used as message, key, value and group name at once; the shape space (all With/WithGroup chains of up to 3 ops x forests with up to 4/5 nodes over leaf, keyed/inline/empty groups and LogValuer layers) is enumerated completely; random deep records add 23 value kinds with extremes and failing encoders.",
+   "Every line the JSON handler writes (through the public Logger API and through Handler.Handle with a chosen time) is checked for framing, UTF-8, single-object syntax and ordered equality with the expected tree. The string space ('', all 1-/2-byte strings, every Unicode scalar alone and embedded; quick rotates through 1/16 of the scalars) is used as message, key, value and group name at once; the shape space (all With/WithGroup chains of up to 3 ops x forests with up to 4/5 nodes over leaf, keyed/inline/empty groups and LogValuer layers) is enumerated completely; random deep records add 26 value kinds with extremes, failing / pretty-printing / nil-receiver encoders. Every other case also derives decoy sibling loggers from each parent of the chain; further entry points (level methods, LogAttrs, Logf family, Panic/Panicf), a call site under a //line directive with an awkward file name, and record times at and beyond the years RFC 3339 can spell are covered.",
    "Trusts encoding/json's decoder as the syntax judge and the 300-line expectation model; colour on, panicking LogValuers and times outside 1970..2191 are not generated.", "§3 C01"),
  "C13": ("logtext", "exploration",
    "independent tokenizer written from the grammar in the statement + expected (dotted path, value) list; same string-/shape-exhaustive and random corpora as C01",
-   "Every line the text handler writes is re-tokenised (pair = tok '=' tok, tok = Go-quoted or bare run without Unicode space, '=' or '\"') and the unquoted tokens must equal time, level, source, msg and each attribute's dotted path and value in order. Strings sit in message, key, value, group-key and WithGroup-name position simultaneously.",
+   "Every line the text handler writes is re-tokenised (pair = tok '=' tok, tok = Go-quoted or bare run without Unicode space, '=' or '\"') and the unquoted tokens must equal time, level, source, msg and each attribute's dotted path and value in order. Strings sit in message, key, value, group-key and WithGroup-name position simultaneously. Decoy sibling loggers, the Panic/Panicf and Logf entry points, an awkwardly named call-site file, extreme record times, and a shard in which 8 goroutines share one (grouped or root) logger while a LogValuer logs re-entrantly through it are covered too.",
    "Trusts strconv.Unquote and the tokenizer (60 lines); ambiguity between (group,key) splits with the same dotted path is by design of the format.", "§3 C13"),
  "C10": ("cfgargs", "exploration",
    "reference-model monitor: a reference argv parser written from the documented grammar run next to FlagSet.Parse on exhaustive short vectors and seeded random vectors",
-   "All argument vectors of up to 5 (quick) / 6 (thorough) tokens over a 16-token alphabet of well-formed flags and near-misses, -config forms inserted at every position, plus 10^6/10^7 random vectors with arbitrary byte tokens; compared: error vs nil, Args(), ShowUsage(), all nine field values; recover() around Parse.",
+   "All argument vectors of up to 5 (quick) / 6 (thorough) tokens over a 16-token alphabet of well-formed flags and near-misses, -config forms inserted at every position, plus 10^6/10^7 random vectors with arbitrary byte tokens; flag names of 63..200 bytes; compared: error vs nil, Args(), ShowUsage(), all field values; recover() around Parse; a canary vector re-parsed after every case (Parse must not depend on earlier Parse calls).",
    "Typed value syntax is delegated to the same strconv/time/base64 functions the flag package uses; the property is about the grammar.", "§3 C10"),
  "C17": ("urlpath", "exploration",
    "reference-model monitor (segment-stack containment, no path.Clean) plus the real file system as canary (inode/content of what the result reaches)",
-   "All strings of length up to 8 (quick) / 10 (thorough) over {'/', '.', 'a', '\\'} x 12 base spellings against a lexical containment model, and up to 7/9 against a real temp tree with SECRET files outside the base where os.Stat/os.ReadFile of the result must stay inside (absolute and, after chdir, relative bases); random hostile paths with %2e, backslashes, long segments.",
+   "All strings of length up to 8 (quick) / 10 (thorough) over {'/', '.', 'a', '\\'} x 12 base spellings against a lexical containment model, and up to 7/9 against a real temp tree with SECRET files outside the base where os.Stat/os.ReadFile of the result must stay inside (absolute and, after chdir, relative bases); random hostile paths with %2e, backslashes, long segments; history shards (colliding (base, path) splits asked in both orders and interleaved), a retained-result oracle and a concurrent variant.",
    "POSIX only; symlinks inside the base are outside the statement.", "§3 C17"),
  "C02": ("logatomic", "exploration",
    "recording io.Writer (overlap counter, per-call payload copies) + offline multiset check against alone-replay lines; Go race detector on the same runs",
-   "Concurrent runs of 2-32 goroutines logging through the root, pre-derived children and children derived on the fly, all three handlers, all five thresholds, line sizes from tiny to 40 KiB around the 16 KiB pool limit, GOMAXPROCS 2/4/16, plain and under -race. The destination counts Write calls that overlap and dwells inside; afterwards the time-stripped payloads must be exactly the multiset of lines the records produce when logged alone, and #Write == #records at or above the threshold (decided from the level, not from glb).",
+   "Concurrent runs of 2-32 goroutines logging through the root, pre-derived children and children derived on the fly, all three handlers, all five thresholds, line sizes from tiny to 40 KiB around the 16 KiB pool limit, GOMAXPROCS 2/4/16, plain and under -race. The destination counts Write calls that overlap and dwells inside; afterwards the time-stripped payloads must be exactly the multiset of lines the records produce when logged alone, and #Write == #records at or above the threshold (decided from the level, not from glb). In a third of the runs the destination reports short writes with an error now and then.",
    "Held on the schedules that occurred (context switches in the output order are reported); writers that fail or write short are outside the statement.", "§3 C02"),
  "C03": ("logderive", "exploration",
    "differential monitor: every line of a derivation tree vs the alone replay of that logger's own chain; With-vs-call-site decoded equality; race detector on concurrent derivation from a shared parent",
-   "Sibling sweep over a non-root parent whose pre-rendered bytes take every length 0..200 (every spare capacity of the append growth policy), 2-4 children, several derive/log orders and all orders of up to 6 ops for selected lengths; random trees (depth 5, fan-out 4, 40 ops) with rich attribute forests; With(A).WithGroup(g).With(B).Log(C) == Log(A, Group(g,B,C)) and With(A).With(B).Log(C) == Log(A,B,C) over enumerated and random forests; concurrent derivation plain and under -race.",
+   "Sibling sweep over a non-root parent whose pre-rendered bytes take every length 0..200 (every spare capacity of the append growth policy), 2-4 children, several derive/log orders and all orders of up to 6 ops for selected lengths; random trees (depth 5, fan-out 4, 40 ops) with rich attribute forests; With(A).WithGroup(g).With(B).Log(C) == Log(A, Group(g,B,C)) and With(A).With(B).Log(C) == Log(A,B,C) over enumerated and random forests; concurrent derivation plain and under -race, including rounds in which all goroutines derive their first child from a fresh parent simultaneously; group names that need escaping.",
    "The alone replay runs the same glb code on a fresh root, so the check decides isolation and With/call-site equivalence, not absolute format correctness (C01/C13 do that).", "§3 C03"),
  "C18": ("filecopy", "fault_enumeration",
    "content-snapshot monitor (SHA-256 before/after) on two real file systems with strace syscall fault injection and RLIMIT_FSIZE inside the copy",
-   "Complete product of sizes x destination kinds x aliasing spellings x same/other file system for CopyFile and MoveFile; real EXDEV via /dev/shm; strace injects failing rename, copy_file_range (call 1 and 2), read/write fallback faults, openat, fstat and unlinkat errors into a probe process performing exactly one call; the oracle requires destination == source snapshot on nil and an intact source on error.",
+   "Complete product of sizes x destination kinds x aliasing spellings x same/other file system for CopyFile and MoveFile; real EXDEV via /dev/shm; strace injects failing rename, copy_file_range (call 1 and 2), read/write fallback faults, openat, fstat and unlinkat errors into a probe process performing exactly one call; the oracle requires destination == source snapshot on nil and an intact source on error. A name-related family (source = destination + '.tmp', '~', '.bak', hidden variants, and vice versa) is included.",
    "Needs ptrace/strace (rows are listed as skipped otherwise); close() and destination-stat faults are not injected.", "§3 C18"),
  "C19": ("progress", "exploration",
    "event-log monitor: writer/consumer histories checked offline (Size == sum n, monotone prefix sums, final total, closed channel); blocked-writer decided structurally from goroutine dumps; race detector",
-   "2 300 (quick) / 240 000 (thorough) seeded scenarios over 6 wrapped-writer behaviours x StringWriter or not x op lists of Write/WriteString up to 50 ops x 5 consumer behaviours, at GOMAXPROCS 1/2/4/16 and under -race; evidence counts received vs skipped sends and intermediate values per consumer kind.",
+   "2 300 (quick) / 240 000 (thorough) seeded scenarios over 6 wrapped-writer behaviours x StringWriter or not x op lists of Write/WriteString up to 50 ops x 5 consumer behaviours, at GOMAXPROCS 1/2/4/16 and under -race; evidence counts received vs skipped sends and intermediate values per consumer kind. Also long scenarios (up to 10^5 tiny writes against an eager consumer), 10^5 aligned one-write-then-Close lifetimes, lazily obtained Status(), and a structural rule for a writer parked in any channel operation below ProgressWriter frames.",
    "Size() from another goroutine while writing is unsynchronised in glb and not promised; not driven.", "§3 C19"),
  "C15": ("relay", "exploration",
    "offline checker over recorded events: log records (one Write = one record, parsed per handler kind) joined by request id with the client's wire log; real http.Server on loopback and ServeHTTP with a recorder; race detector",
-   "The full product of handler behaviours (12 status codes x body or not x panic before / after header / after body / none x 9 panic value kinds, matched and unmatched) is sent sequentially over real HTTP and through a recorder for all three handlers at thresholds Info, Error, Fatal; seeded batches with 8 and 64 requests in flight at GOMAXPROCS 2/4/16, also under -race. Decided: one REQ_BEG and one REQ_END per request with its method/URI/ip/id, END code == status received, 500 iff panic before any write, one Error record with the rendered panic value iff the handler panicked, nothing escapes Relay.",
+   "The full product of handler behaviours (12 status codes x body or not x panic before / after header / after body / none x 9 panic value kinds, matched and unmatched) is sent sequentially over real HTTP and through a recorder for all three handlers at thresholds Info, Error, Fatal; seeded batches with 8 and 64 requests in flight at GOMAXPROCS 2/4/16, also under -race. Panic values include errors wrapping / joining / textually equal to http.ErrAbortHandler and a nil-like error; bodies are also written with io.Copy; requests aborting with the excluded sentinel are followed by ordinary ones; every code 200..599 is swept. Decided: one REQ_BEG and one REQ_END per request with its method/URI/ip/id, END code == status received, 500 iff panic before any write, one Error record with the rendered panic value iff the handler panicked, nothing escapes Relay.",
    "http.ErrAbortHandler, 1xx, hijacking and HTTP/2 are not exercised; request URIs are space-free tokens so that the key-less nano format can be split.", "§3 C15"),
  "C20": ("daemonlaunch", "exploration",
    "process-level monitor: marker files written before Done(), /proc parentage and liveness after the caller exited; schedules forced with the verif pause hook in the launcher",
-   "A harness binary plays caller, launcher (glb code) and daemon. Launch's return is judged by file existence at that instant (marker and pre-Done file carrying the returned pid), the daemon must be alive, re-parented and answer a ping after the caller exited, the launcher must be gone. Schedules: natural with Done() after 0/5/200 ms, forced 'Done() precedes the launcher's wait' via GLB_VERIF_PAUSE, 2 and 8 concurrent Launch calls, mixed. 120 (quick) / 3 600 (thorough) scenarios.",
+   "A harness binary plays caller, launcher (glb code) and daemon. Launch's return is judged by file existence at that instant (marker and pre-Done file carrying the returned pid), the daemon must be alive, re-parented and answer a ping after the caller exited, the launcher must be gone. Schedules: natural with Done() after 0/5/200 ms, forced 'Done() precedes the launcher's wait' via GLB_VERIF_PAUSE, 2 and 8 concurrent Launch calls, mixed, launchers that linger before exiting, and launch histories inside one caller with handlers that fail before Done(). 260 (quick) / 7 800 (thorough) scenarios.",
    "Needs fork/exec, signals and /proc; only these schedule classes are forced, other timings are sampled by repetition.", "§3 C20"),
  "C16": ("shellesc", "exploration",
    "the real dash, bash and bash --posix reading the escaped text (argv printed by an external helper, canary files) plus an independent POSIX quoting lexer; exhaustive short strings over the shell's special characters",
-   "Every string of length up to 4 (quick) / 5 (thorough) over the 15-character alphabet of shell specials, the same with a ~/ prefix, 2*10^4/10^6 random non-NUL byte strings up to 64 bytes and a hostile corpus are escaped by the real functions, written into scripts and executed by three shell modes x two locales (x two HOME values for the tilde form); the NUL-split argv must equal the inputs, stderr empty, exit 0, working directory unchanged (canary). A quoting model must see exactly one word with no active expansion trigger. Positive controls prove the oracles can fire.",
+   "Every string of length up to 4 (quick) / 5 (thorough) over the 15-character alphabet of shell specials, the same with a ~/ prefix, 2*10^4/10^6 random non-NUL byte strings up to 64 bytes and a hostile corpus are escaped by the real functions, written into scripts and executed by three shell modes x two locales (x two HOME values for the tilde form); the NUL-split argv must equal the inputs, stderr empty, exit 0, working directory unchanged (canary). A quoting model must see exactly one word with no active expansion trigger. Positive controls prove the oracles can fire. Results are also kept and compared again after later calls (retained-result oracle), concurrent callers are run at GOMAXPROCS 2/4/16, and all strings of length up to 16 over {quote, letter} go through the model.",
    "Only dash and bash are installed; other POSIX shells are covered by the lexer model only.", "§3 C16"),
  "C09": ("cfgprio", "exploration",
    "value-first reference-model monitor: expected = highest-priority source, sources really set (argv, environment, JSON file / CFG_CONFIG_B64); exhaustive type x source-mask lattice, seeded random structs",
@@ -67,23 +67,23 @@ CHECKS = {
    "JSON null, unknown and case-folded JSON keys are not generated; env names come from a hand-written pool.", "§3 C09"),
  "C06": ("lane", "fault_enumeration",
    "event-log checker over API-boundary histories (PushTask results, per-task start counters, logical clock) with cancellation injected at every protocol point through the verif hook; quiescence decided from goroutine dumps",
-   "Cancel is fired on the k-th hit (k in 1,2,3,5,8) of each of 13 hook points between the channel operations of PushTask, the queue goroutine and the worker, on 9 small lane/queue configurations in 3 load shapes (free running, all workers pinned with blocked producers, timeouts against a full lane), plus 300 (quick) / 20 000 (thorough, also at GOMAXPROCS 2 and 4 and under -race) random scenarios. Decided: no task starts twice, no task whose PushTask returned an error ever starts (judged when no lane goroutine exists any more), and with the context live every accepted task has started once the lane is structurally at rest.",
+   "Cancel is fired on the k-th hit (k in 1,2,3,5,8) of each of 13 hook points between the channel operations of PushTask, the queue goroutine and the worker, on 9 small lane/queue configurations in 3 load shapes (free running, all workers pinned with blocked producers, timeouts against a full lane), plus 300 (quick) / 20 000 (thorough, also at GOMAXPROCS 2 and 4 and under -race) random scenarios. Decided: no task starts twice, no task whose PushTask returned an error ever starts (judged when no lane goroutine exists any more), and with the context live every accepted task has started once the lane is structurally at rest. Also: rush scenarios (push, cancel, Wait right after New), try-push timeouts (0, 1 µs, 50 µs), nil tasks, and the rule that the lane keeps its 2 x laneSize goroutines while the context is live.",
    "'Eventually' is decided as bounded progress to a quiescent goroutine dump; schedules are those the hook perturbation and the machine produced (distinct hook traces are counted).", "§3 C06"),
  "C07": ("lane", "fault_enumeration",
    "same scenario runner: after cancel the system must reach 'Wait returned, no lane goroutine' and never rest with a parked producer / lane goroutine; exit hooks tell whether Wait returned early",
-   "Same cancel-point enumeration and random scenarios as C06. After the cancel and after releasing all gated tasks the monitor follows goroutine dumps: coming to rest with a producer in PushTask, a lane goroutine parked or Wait not returned is a violation (Done() is closed, so only a select without that case can park). Pushes begun after cancel returned must return the context's error and never start; after Wait a dump must show no lane goroutine; Wait may not return before all 2 x laneSize goroutines reached their exit hook; no start after Wait.",
+   "Same cancel-point enumeration and random scenarios as C06. After the cancel and after releasing all gated tasks the monitor follows goroutine dumps: coming to rest with a producer in PushTask, a lane goroutine parked or Wait not returned is a violation (Done() is closed, so only a select without that case can park). Pushes begun after cancel returned must return the context's error and never start; after Wait a dump must show no lane goroutine; Wait may not return before all 2 x laneSize goroutines reached their exit hook; no start after Wait. Also: up to 8 concurrent Wait callers (also parked in Wait before the cancel), rush scenarios at GOMAXPROCS 1/2/16, deadline-expired contexts, zero timeouts.",
    "A lane goroutine that spins instead of parking makes the run inconclusive (watchdog), not a violation.", "§3 C07"),
  "C08": ("lane", "exploration",
    "running-task counter inside Start() and head-of-line rule at structurally quiescent states with pinned workers",
-   "1..laneSize-1 workers are pinned by gated tasks (including the target lane's own worker) for laneSize 2,3,4,8 x queueSize 0,1,2,5; everything is pushed to one lane, to the pinned lanes only, round-robin or via ShortestQueueIndex, with and without hook perturbation; at rest with the context live and fewer than laneSize tasks running, no accepted task may be unstarted; max(enter - exit) <= laneSize at every task entry.",
+   "1..laneSize-1 workers are pinned by gated tasks (including the target lane's own worker) for laneSize 2,3,4,8 x queueSize 0,1,2,5; everything is pushed to one lane, to the pinned lanes only, round-robin or via ShortestQueueIndex, with and without hook perturbation; at rest with the context live and fewer than laneSize tasks running, no accepted task may be unstarted; max(enter - exit) <= laneSize at every task entry; no push may stay blocked at rest while a worker is idle. Warm-up histories (a burst through one lane before the other workers are pinned) with directed delays at hook points.",
    "Schedules sampled, not enumerated.", "§3 C08"),
  "C14": ("lane", "exploration",
    "Status() pollers (bounds on every sample), exact pending comparison at quiescent states, LastPanic membership, Go race detector on simultaneous-panic scenarios",
-   "Stable states with all workers pinned and k = 0..capacity tasks accepted behind them (PendingTask must equal k exactly), overflow with timeouts, panic mixes of five dynamic value types on every lane, one gated panicking task per worker released at once; 1-4 goroutines poll Status() throughout. After panics every other accepted task must have started exactly once, the lane keeps its 2 x laneSize goroutines, and LastPanic == one of the raised values. The simultaneous-panic scenarios run under -race without the hook at GOMAXPROCS 2/4/16.",
+   "Stable states with all workers pinned and k = 0..capacity tasks accepted behind them (PendingTask must equal k exactly), overflow with timeouts, panic mixes of five dynamic value types on every lane, one gated panicking task per worker released at once; 1-4 goroutines poll Status() throughout. After panics every other accepted task must have started exactly once, the lane keeps its 2 x laneSize goroutines, and LastPanic == one of the raised values (uncomparable dynamic types such as slices and maps included, raised back to back). The simultaneous-panic scenarios run under -race without the hook at GOMAXPROCS 2/4/16.",
    "Race reports are schedule dependent; the scenarios are repeated (40 quick / 600 thorough per GOMAXPROCS value).", "§3 C14"),
  "C12": ("ipfilterconc", "exploration",
    "interval checker over logically time-stamped lookups (stable / never-present / owned ranges, match-all on-intervals) plus per-writer sequential models; Go race detector and runtime fatal errors on the same workload",
-   "Trials with 2-4 writers (disjoint owned /8s, 150-300 ops each with nested and repeated prefixes, probing their own range after every op), 2-8 readers and an optional 0.0.0.0/0 toggler on a filter pre-loaded with 32 stable ranges, so that the 257th add (list-to-map migration) happens while lookups are running. A stable address must always be found, a never-added address never (unless the call's logical interval meets a match-all interval), a writer sees its own updates, and the final filter equals the per-writer models. 180 (quick) / 30 000 (thorough) plain trials at GOMAXPROCS 2/4/16 plus -race trials.",
+   "Trials with 2-4 writers (disjoint owned /8s, 150-300 ops each with nested and repeated prefixes, probing their own range after every op), 2-8 readers and an optional 0.0.0.0/0 toggler on a filter pre-loaded with 32 stable ranges, so that the 257th add (list-to-map migration) happens while lookups are running. A stable address must always be found, a never-added address never (unless the call's logical interval meets a match-all interval), a writer sees its own updates, and the final filter equals the per-writer models. 180 (quick) / 30 000 (thorough) plain trials at GOMAXPROCS 2/4/16 plus -race trials; switch rounds (list filled to exactly 256, one writer's Add switches while others remove and add) and toggle trials (watchers look up one fixed address around a writer's updates, judged by a phase counter).",
    "Not linearizability: the statement is regular-register-like, and the checker encodes exactly that. Evidence reports how many lookups overlapped a write and the migrating Add.", "§3 C12"),
 }
 BUILT = set(CHECKS)
